@@ -696,39 +696,6 @@ Definition opt_list (k : string) (l : list json) : obj := match l with [] => [] 
 Definition rel_names : list string :=
   ["authentication"; "assertionMethod"; "capabilityDelegation"; "capabilityInvocation"; "keyAgreement"].
 
-Fixpoint rels_out (w : variant) (did base : string) (vms : list vmeth) (m : obj) (names : list string) : option obj :=
-  match names with
-  | [] => Some []
-  | n :: r =>
-      match mapM (dec_rel w did base vms) (jlist (lookup m n)), rels_out w did base vms m r with
-      | Some ls, Some rest => Some (opt_list n (map (enc_rel did base) (List.concat ls)) ++ rest)
-      | _, _ => None
-      end
-  end.
-
-(* ParseDocument -> JSONBytes without the services (service_roundtrip), created/updated and proofs *)
-Definition roundtrip_did (w : variant) (j : json) : option json :=
-  match j with
-  | JObj m =>
-      match dec_str (lookup m "id") with
-      | Some did =>
-          let '(ctx, base) := did_context (lookup m "@context") in
-          match mapM (fun x => match x with JObj vm => dec_vm w did base vm | _ => None end) (jlist (lookup m "verificationMethod")) with
-          | Some vms =>
-              match rels_out w did base vms m rel_names with
-              | Some rels =>
-                  Some (JObj (opt_member "@context" ctx ++ emit_str "id" did true ++
-                              opt_list "alsoKnownAs" (jlist (lookup m "alsoKnownAs")) ++
-                              opt_list "verificationMethod" (map (enc_vm did base) vms) ++ rels))
-              | None => None
-              end
-          | None => None
-          end
-      | None => None
-      end
-  | _ => None
-  end.
-
 (* ---------- DID services: populateServices / populateRawServices in full ---------- *)
 (* stringArray: nil entries dropped, other non-strings read as "" *)
 Definition str_array (o : option json) : list string :=
@@ -779,3 +746,56 @@ Definition roundtrip_service (did base : string) (m : obj) : obj :=
   (match lookup m "priority" with Some JNull | None => [] | Some p => [("priority", f64j p)] end) ++
   (match rks with [] => [] | _ => [("recipientKeys", strs (out_keys did base (map (abs_id did base) rks) rt))] end) ++
   (match oks with [] => [] | _ => [("routingKeys", strs (out_keys did base (map (abs_id did base) oks) ot))] end).
+
+(* ---------- the whole DID document ---------- *)
+(* a parsed service is represented by what populateRawServices writes for it *)
+Record ddoc := {
+  d_ctx : option json; d_base : string; d_id : string; d_aka : list json; d_vms : list vmeth;
+  d_svcs : list obj; d_rels : list (list verif) (* in the order of rel_names *) }.
+
+Fixpoint rels_parse (w : variant) (did base : string) (vms : list vmeth) (m : obj) (names : list string)
+  : option (list (list verif)) :=
+  match names with
+  | [] => Some []
+  | n :: r =>
+      match mapM (dec_rel w did base vms) (jlist (lookup m n)), rels_parse w did base vms m r with
+      | Some ls, Some rest => Some (List.concat ls :: rest)
+      | _, _ => None
+      end
+  end.
+Fixpoint rels_obj (did base : string) (names : list string) (rels : list (list verif)) : obj :=
+  match names, rels with
+  | n :: r, vs :: rs => opt_list n (map (enc_rel did base) vs) ++ rels_obj did base r rs
+  | _, _ => []
+  end.
+
+(* ParseDocument (context v1; created / updated / proof not modelled) *)
+Definition parse_did (w : variant) (j : json) : option ddoc :=
+  match j with
+  | JObj m =>
+      match dec_str (lookup m "id") with
+      | Some did =>
+          let '(ctx, base) := did_context (lookup m "@context") in
+          match mapM (fun x => match x with JObj vm => dec_vm w did base vm | _ => None end) (jlist (lookup m "verificationMethod")),
+                mapM (fun x => match x with JObj sv => Some (roundtrip_service did base sv) | _ => None end) (jlist (lookup m "service")) with
+          | Some vms, Some svcs =>
+              match rels_parse w did base vms m rel_names with
+              | Some rels =>
+                  Some {| d_ctx := ctx; d_base := base; d_id := did; d_aka := jlist (lookup m "alsoKnownAs");
+                          d_vms := vms; d_svcs := svcs; d_rels := rels |}
+              | None => None
+              end
+          | _, _ => None
+          end
+      | None => None
+      end
+  | _ => None
+  end.
+(* JSONBytes *)
+Definition marshal_did (d : ddoc) : json :=
+  JObj (opt_member "@context" (d_ctx d) ++ emit_str "id" (d_id d) true ++
+        opt_list "alsoKnownAs" (d_aka d) ++
+        opt_list "verificationMethod" (map (enc_vm (d_id d) (d_base d)) (d_vms d)) ++
+        opt_list "service" (map JObj (d_svcs d)) ++
+        rels_obj (d_id d) (d_base d) rel_names (d_rels d)).
+Definition roundtrip_did (w : variant) (j : json) : option json := option_map marshal_did (parse_did w j).
